@@ -18,6 +18,19 @@ CLAIMS = {
              "two known findings (trailing bytes after Get/NewRaw, unterminated string at 32-byte multiple) are matched by spec-level signature",
         engine="lex",
     ),
+    "C17": dict(
+        category="model_checking",
+        technique="TLA+ specification of the required stream result (Stream!Ref) and of the decoder loop against an adversarial Reader "
+                  "(StreamImpl refines Ref, TLC, all chunkings); all chunkings of every generated stream replayed on the real decoder three-way "
+                  "with encoding/json; StreamEnc cases replayed with a failing Writer; recorded long-stream traces validated by TLC",
+        text="TLC checks that the implementation-shaped decoder model returns exactly Ref's values and terminal condition under every Reader "
+             "schedule of bounded streams; the harness replays every generated stream under every chunking / EOF delivery / empty reads / "
+             "fault on the real StreamDecoder and validates recorded executions on long streams around the 4096-byte buffer with a trace spec.",
+        design_ref="DESIGN.md section 4 C17, section 11",
+        note="streams bounded (length, alphabet) in the exhaustive part; longer ones only by seeded traces; encoding/json.Decoder trusted as "
+             "reference (disagreements skipped and counted); Reader errors assumed sticky; InputOffset/Buffered are not part of the verdict",
+        engine="stream",
+    ),
 }
 
 NOT_YET = "not yet claimed: check under construction (build phase), see DESIGN.md section 8"
